@@ -680,7 +680,11 @@ def plan(tier):
         for oi in range(4):
             for name in names:
                 ps = _pairs(6)
-                ts.append(('s', oi, True, name, tuple(ps[oi::2][:3]), name in CORE, None))
+                sel = tuple(ps[oi::2][:3])
+                if name.startswith(('copy:', 'load:')):
+                    # the first operand index selects the copied / loaded function: all twelve
+                    sel = tuple((i, (5 * i + oi) % 12) for i in range(12))
+                ts.append(('s', oi, True, name, sel, name in CORE, None))
         for name in names:
             if name not in AUTO_ONLY:
                 ts.append(('s', 0, False, name, tuple(_pairs(4)), False, None))
